@@ -140,7 +140,7 @@ ROUND4_NOTES = {
     "C05-H": "c05's CLI leg gained -m -y (several files x several documents, also none)",
     "C08-G": "all pairs of 45 containers that differ (or, for 0 / -0, do not differ) in exactly one position - first, middle, last, nested - compared repeatedly in one program",
     "C08-H": "documented parameter names of 61 std functions (driver/stdparams.py): every argument bound by name, reversed and positional-then-named, equals the positional call",
-    "C10-G": "recursion through the callback of 22 higher-order builtins / constructs, for the first and for the last element",
+    "C10-G": "recursion through the callback of 22 higher-order builtins / constructs, for the first and for the last element - which does NOT catch this change: it lowers the charge per level from 3 frames to 2, and the check only demands at least one frame per level within a factor of three (the exact accounting is not part of the statement); recorded as a miss, see DESIGN.md section 8",
     "C12-H": "objects built by a construction history (genrmkey: hidden below, default above, +:, removed keys) under -m against the layer-deletion model",
     "C13-G": "files of 4 KiB .. 128 KiB with a multi-byte or truncated sequence straddling the power-of-two boundary through importstr / importbin / import",
     "C13-H": "the same failing path imported at four sites of one file of which only the k-th is evaluated: the error must point at that site",
